@@ -128,7 +128,7 @@ def run_tlc(module, cfg, workers=16, env=None, simulate=None, depth=None, covera
     else:
         cfg_path = cfg
     mod_path = module if os.path.isabs(module) else os.path.join(SPEC, module + ".tla")
-    cmd = ["java", "-XX:+UseParallelGC", "-Xmx" + heap]
+    cmd = ["java", "-XX:+UseParallelGC", "-Xmx" + heap, "-Xss512m"]
     if dfs_queue:
         cmd.append("-Dtlc2.tool.queue.IStateQueue=StateDeque")
     cmd += ["-cp", JAR_CP, "tlc2.TLC", "-workers", str(workers), "-metadir", os.path.join(work, "meta"),
